@@ -49,7 +49,7 @@ def main():
         dst = os.path.join("/verif/seeded/controls", sid)
         os.makedirs(dst, exist_ok=True)
         open(os.path.join(dst, "patch.diff"), "w").write(diff)
-        if os.path.exists(os.path.join(cand, "notes.md")):
+        if os.path.exists(os.path.join(cand, "notes.md")) and os.path.abspath(cand) != os.path.abspath(dst):
             shutil.copy(os.path.join(cand, "notes.md"), os.path.join(dst, "notes.md"))
         json.dump(meta, open(os.path.join(dst, "meta.json"), "w"), indent=1)
         if alarms:
